@@ -2,5 +2,5 @@
 From Coq Require Import List Arith Bool.
 From Icv Require Import Route.RtModel Route.RtNet Route.RtFamilies.
 Import ListNotations.
-Lemma rt_sweep_g_b : rt_sweep_g (rt_fam_g 9 9) = true.
+Lemma rt_sweep_g_b : rt_sweep_g (rt_fam_g 10 10) = true.
 Proof. vm_compute. reflexivity. Qed.
